@@ -233,3 +233,8 @@ def run(ctx):
             rr.id = "C06.R5"
         if rr.id == "C18.R8":
             rr.id = "C06.R6"
+    from . import c11
+    ctx.guard(c11.rule_r11)       # a refused peer is not handed a queued message
+    for rr in ctx.rules:
+        if rr.id == "C11.R11":
+            rr.id = "C06.R8"
